@@ -238,8 +238,9 @@ class Ref:
     def load(self, b, fr):
         d = self.globals if b[1] else fr
         if b[0] not in d:
-            # declared but not yet initialised (self-referential initialiser, skipped declaration): unspecified
-            raise RefError(ANY_ERR, "read of %s before its declaration was executed" % b[2])
+            # declared but not yet initialised (self-referential initialiser, declaration skipped by `volgende`):
+            # the documentation fixes nothing here beyond "no crash" (DESIGN 4.3-3 / 4.3-10) -> not compared
+            raise Unsupported("read of %s before its declaration was executed" % b[2])
         return d[b[0]]
 
     # -- expressions
